@@ -21,7 +21,10 @@ import itertools
 import operator
 
 from .core import AnalysisError, U, call_name, try_const
+from . import symexec as _sx
 from .symexec import _strip, bool_atoms, bool_eval, subst
+
+_PARSED = {}
 
 
 class Path:
@@ -144,7 +147,8 @@ class _HeapRead(ast.NodeTransformer):
 
 
 class Summarizer:
-    def __init__(self, inline=None, loop_hook=None, depth=3, consts=None):
+    def __init__(self, inline=None, loop_hook=None, depth=3, consts=None, effect_calls=()):
+        self.effect_calls = set(effect_calls)  # texts of callees whose calls (as statements) are recorded as effects
         self.inline = inline or {}
         self.loop_hook = loop_hook
         self.depth = depth
@@ -331,6 +335,13 @@ class Summarizer:
             return [(env, conds)]
         if isinstance(st, ast.With):
             return self._block(st.body, [(env, conds)], done, depth, func)
+        if isinstance(st, ast.Expr) and isinstance(st.value, ast.Call) and U(st.value.func) in self.effect_calls:
+            c = st.value
+            args = [self._sub(a, env, depth) for a in c.args]
+            env.setdefault("__fx__", []).append((f"call:{U(c.func)}", args[0] if len(args) == 1 else ast.Tuple(elts=args, ctx=ast.Load()), st))
+            return [(env, conds)]
+        if isinstance(st, (ast.FunctionDef, ast.AsyncFunctionDef, ast.ClassDef)):
+            return [(env, conds)]  # a nested definition binds a name; calls to it are inlined through ``inline`` or stay symbolic
         if isinstance(st, (ast.Pass, ast.Expr, ast.Assert, ast.Import, ast.ImportFrom)):
             if isinstance(st, ast.Expr) and isinstance(st.value, ast.Call) and isinstance(st.value.func, ast.Attribute) and isinstance(st.value.func.value, ast.Name):
                 # a method call on a tracked local (``digits.reverse()``): the value is wrapped so the mutation stays visible
@@ -367,7 +378,7 @@ _UNKNOWN = object()
 
 def cval(node, sc):
     """Concrete value of an expression in a scenario (sub-expression text -> value), or _UNKNOWN."""
-    t = U(node)
+    t = _sx._u(node)
     if t in sc:
         return sc[t]
     if isinstance(node, ast.Constant):
@@ -446,10 +457,15 @@ class Asg:
     def _val(self, k):
         if k in self.free:
             return self.free[k]
-        try:
-            node = ast.parse(k, mode="eval").body
-        except SyntaxError:
-            return None
+        node = _PARSED.get(k)
+        if node is None:
+            try:
+                node = ast.parse(k, mode="eval").body
+            except SyntaxError:
+                return None
+            if len(_PARSED) > 20000:
+                _PARSED.clear()
+            _PARSED[k] = node
         v = cval(node, self.sc)
         return None if v is _UNKNOWN else bool(v)
 
@@ -569,21 +585,72 @@ def _candidates(paths, asg):
     return out
 
 
+def needed_atoms(test, asg):
+    """Unknown atoms whose value can matter for ``test`` given what is known: operands behind a decided short-circuit
+    and the arm of a conditional that a known test does not select are not looked at."""
+    if isinstance(test, ast.BoolOp):
+        out = set()
+        for v in test.values:
+            t = tv3(v, asg)
+            if t is None:
+                out |= needed_atoms(v, asg)
+            elif t is (not isinstance(test.op, ast.And)):
+                return out  # decided here: the remaining operands are not evaluated
+        return out
+    if isinstance(test, ast.UnaryOp) and isinstance(test.op, ast.Not):
+        return needed_atoms(test.operand, asg)
+    if isinstance(test, ast.IfExp):
+        t = tv3(test.test, asg)
+        if t is None:
+            return needed_atoms(test.test, asg) | needed_atoms(test.body, asg) | needed_atoms(test.orelse, asg)
+        return needed_atoms(test.body if t else test.orelse, asg)
+    if isinstance(test, ast.Constant):
+        return set()
+    return {a for a in bool_atoms(test) if asg._val(a) is None}
+
+
+def _value_atoms(e, asg):
+    """Unknown atoms of the conditionals inside a value expression (outermost first, known tests select their arm)."""
+    out = set()
+    if isinstance(e, ast.IfExp):
+        t = tv3(e.test, asg)
+        if t is None:
+            return needed_atoms(e.test, asg) | _value_atoms(e.body, asg) | _value_atoms(e.orelse, asg)
+        return _value_atoms(e.body if t else e.orelse, asg)
+    for ch in ast.iter_child_nodes(e):
+        out |= _value_atoms(ch, asg)
+    return out
+
+
 def free_atoms(paths, sc):
     asg = Asg(sc)
     out = set()
     for p in _candidates(paths, asg):
         for c, _o in p.conds:
-            out |= {a for a in bool_atoms(c) if asg._val(a) is None}
-        if p.ret is not None:
-            for n in ast.walk(p.ret):
-                if isinstance(n, ast.IfExp):
-                    out |= {a for a in bool_atoms(n.test) if asg._val(a) is None}
+            out |= needed_atoms(c, asg)
+        for e in ([p.ret] if p.ret is not None else []) + [fx_[1] for fx_ in p.effects if isinstance(fx_[1], ast.AST)]:
+            out |= _value_atoms(e, asg)
     return sorted(out)
 
 
 def decide(paths, sc, rewrite=None, limit=5):
     """[(free assignment, kind, canonical text of the result, path)] of the table in one scenario."""
+    own = _sx.UCACHE is None
+    if own:
+        _sx.UCACHE = _DECIDE_CACHE
+        if len(_DECIDE_CACHE) > 200000:
+            _DECIDE_CACHE.clear()
+    try:
+        return _decide(paths, sc, rewrite, limit)
+    finally:
+        if own:
+            _sx.UCACHE = None
+
+
+_DECIDE_CACHE = {}
+
+
+def _decide(paths, sc, rewrite=None, limit=5):
     free = free_atoms(paths, sc)
     if len(free) > limit:
         raise AnalysisError(f"the result depends on too many other facts in scenario {sc}: {free}")
@@ -615,8 +682,8 @@ def decide(paths, sc, rewrite=None, limit=5):
         used = set()
         for c, _o in p.conds:
             used |= bool_atoms(c)
-        if p.ret is not None:
-            for n in ast.walk(p.ret):
+        for e in ([p.ret] if p.ret is not None else []) + [fx_[1] for fx_ in p.effects if isinstance(fx_[1], ast.AST)]:
+            for n in ast.walk(e):
                 if isinstance(n, ast.IfExp):
                     used |= bool_atoms(n.test)
         fx_used = {k: v for k, v in fx.items() if k in used}
